@@ -25,7 +25,7 @@ USE_FORMS = [        # (template, label) ; {n} is the name
     ("{n} + 1", "must"), ("1 - {n}", "must"), ("-{n}", "must"), ("{n}[0]", "must"), ("d[{n}]", "must"),
     ("[{n}, 1]", "must"), ("({n}, 2)", "must"), ("{{1: {n}}}", "must"), ("{{{n}: 1}}", "must"), ("{n} == 3", "must"),
     ("x = {n}", "must"), ("x = call({n}.a)", "must"), ("return {n}", "must"), ("assert {n}", "must"), ("assert x, {n}", "must"),
-    ("y += {n}", "must"),
+    ("y += {n}", "must"), ("x = {n}.a\n{n} = 5", "must"), ("call({n})\nfor {n} in range(2):\n    pass", "must"),
     # forms the statement does not pin
     ("call(k={n})", "any"), ("lambda: {n}", "any"), ("[i for i in {n}]", "any"), ("f'{{{n}}}'", "any"), ("x if {n} else 1", "any"),
     ("call(*{n})", "any"), ("not {n}", "must"), ("{n} and x", "any"), ("print({n}) if 1 else 2", "any"), ("{{{n}}}", "any"),
@@ -105,7 +105,7 @@ def gen_doc(rng):
             params.append("opt=None")
         if rng.random() < 0.15:
             params.append("*args")
-        shape = rng.choice(["single", "single", "single_ret", "multi", "multi_trailing", "multi_ret", "multi_first_line"])
+        shape = rng.choice(["single", "single", "single_ret", "multi", "multi_trailing", "multi_ret", "multi_first_line", "multi_close_only"])
         ret = " -> None" if "ret" in shape else ""
         ind = 4 if kind == "method" else 0
         if kind == "method":
@@ -117,7 +117,10 @@ def gen_doc(rng):
         d = "async def" if is_async else "def"
         fline = g.line_no()
         if shape.startswith("multi") and params:
-            if shape == "multi_first_line":
+            if shape == "multi_close_only":
+                g.emit(indent(f"{d} {fname}({', '.join(params)}", ind))
+                g.emit(indent(f"){ret}:", ind))
+            elif shape == "multi_first_line":
                 g.emit(indent(f"{d} {fname}({params[0]},", ind))
                 for p in params[1:]:
                     g.emit(indent(f"    {p},", ind))
@@ -134,8 +137,11 @@ def gen_doc(rng):
             if shape.startswith("multi"):
                 shape = "single" + ("_ret" if ret else "")
             g.emit(indent(f"{d} {fname}({', '.join(params)}){ret}:", ind))
+        sig_text = "\n".join(g.lines[fline:])
+        before_close = sig_text[:sig_text.rfind(")")].rstrip()
         g.funcs.append({"name": fname, "line0": fline, "shape": shape, "kind": kind, "declared": declared,
-                        "simple": shape == "single" and not ret and not any("=" in p_ for p_ in params)})
+                        # signatures on which the textual insertion is known to fail (recorded finding)
+                        "simple": not (bool(ret) or before_close.endswith(",") or any("=" in p_ for p_ in params))})
         bi = ind + 4
         if rng.random() < 0.3:
             g.emit(indent('"""Doc mentioning fa and fb."""', bi))
@@ -181,6 +187,8 @@ def gen_doc(rng):
                 pass
             # nested indentation inside block forms
             g.add_stmt(stmt, name, label, fname, bi)
+            if "\n" + name + " = 5" in stmt or "\nfor " + name + " in" in stmt:
+                local_bound.setdefault(name, ("strong", g.line_no()))
             if stmt.startswith("return") or stmt.startswith("raise"):
                 break
         g.emit(indent("pass", bi))
